@@ -27,6 +27,13 @@ type toolDef struct {
 	errText string
 	// deviations of the result value itself that the property's full statement forbids ("" = none)
 	quirk string
+	// descriptor options beyond the description (schema properties, annotations) and the annotations as the model reads them
+	opts []mcp.ToolOption
+	ann  spec
+}
+
+func (t toolDef) descriptor() *mcp.Tool {
+	return mcp.NewTool(t.name, append([]mcp.ToolOption{mcp.WithDescription(t.desc)}, t.opts...)...)
 }
 
 type promptDef struct {
@@ -254,6 +261,26 @@ var allTools = []toolDef{
 		handler: func(ctx context.Context, req *mcp.CallToolRequest) (*mcp.CallToolResult, error) {
 			return nil, errors.New(CtlText)
 		}},
+	// descriptors with annotations and with required properties; numbers no float64 holds in a result
+	{name: "annotated", desc: "a tool with annotations", class: "result", out: spec{"k": "result", "r": resultSpec([]any{textC("annotated")}, nil, false, nil)},
+		opts: []mcp.ToolOption{mcp.WithToolAnnotations(&mcp.ToolAnnotations{Title: "An annotated tool, 100%", ReadOnlyHint: boolp(true), IdempotentHint: boolp(false)})},
+		ann:  spec{"title": "An annotated tool, 100%", "ro": true, "id": false},
+		handler: func(ctx context.Context, req *mcp.CallToolRequest) (*mcp.CallToolResult, error) {
+			return &mcp.CallToolResult{Content: []mcp.Content{mcp.NewTextContent("annotated")}}, nil
+		}},
+	{name: "needs-x", desc: "declares a required argument; returns its arguments", class: "result", out: spec{"k": "echo"},
+		opts: []mcp.ToolOption{mcp.WithString("x", mcp.Required(), mcp.Description("required")), mcp.WithNumber("n")},
+		handler: func(ctx context.Context, req *mcp.CallToolRequest) (*mcp.CallToolResult, error) {
+			return &mcp.CallToolResult{Content: []mcp.Content{}, StructuredContent: req.Params.Arguments}, nil
+		}},
+	fixedTool("bigint", "integers beyond 2^53 and a long decimal in a result", "result",
+		&mcp.CallToolResult{Content: []mcp.Content{mcp.NewTextContent("9007199254740993")},
+			StructuredContent: map[string]any{"id": int64(9007199254740993), "ns": int64(1700000000123456789), "u": uint64(18446744073709551615), "neg": int64(-9007199254740993),
+				"dec": json.Number("0.12345678901234567890123"), "arr": []any{int64(9007199254740993), map[string]any{"deep": int64(9223372036854775807)}}},
+			Result: mcp.Result{Meta: map[string]any{"seq": int64(9007199254740995)}}},
+		resultSpec([]any{textC("9007199254740993")}, spec{"some": map[string]any{"id": int64(9007199254740993), "ns": int64(1700000000123456789), "u": uint64(18446744073709551615),
+			"neg": int64(-9007199254740993), "dec": json.Number("0.12345678901234567890123"), "arr": []any{int64(9007199254740993), map[string]any{"deep": int64(9223372036854775807)}}}},
+			false, spec{"seq": int64(9007199254740995)}), ""),
 	// the sentinel errors real handlers return: from the handler's OWN sub-context (the client still waits), from readers
 	{name: "err-canceled", desc: "an error wrapping context.Canceled", class: "handler-error", errText: "sub-task: context canceled", out: spec{"k": "err", "msg": "sub-task: context canceled"},
 		handler: func(ctx context.Context, req *mcp.CallToolRequest) (*mcp.CallToolResult, error) {
@@ -284,6 +311,8 @@ var allTools = []toolDef{
 			return nil, errors.New(PrintfText)
 		}},
 }
+
+func boolp(b bool) *bool { return &b }
 
 func annotated(t mcp.TextContent, aud []mcp.Role, pri float64) mcp.TextContent {
 	t.Annotations = &struct {
@@ -445,7 +474,7 @@ const ServerName, ServerVersion = "verif-server", "1.2.3"
 // Install registers everything on one server (*mcp.Server, *mcp.SSEServer or *mcp.StdioServer).
 func (r *Registry) Install(s any) {
 	for _, t := range r.tools {
-		tool := mcp.NewTool(t.name, mcp.WithDescription(t.desc))
+		tool := t.descriptor()
 		switch x := s.(type) {
 		case *mcp.Server:
 			x.RegisterTool(tool, t.handler)
@@ -498,11 +527,15 @@ func (r *Registry) Spec() spec {
 	}
 	tools := []any{}
 	for _, t := range r.tools {
-		tl := mcp.NewTool(t.name, mcp.WithDescription(t.desc))
+		tl := t.descriptor()
 		b, _ := json.Marshal(tl.InputSchema)
 		var schema any
 		json.Unmarshal(b, &schema)
-		tools = append(tools, spec{"name": t.name, "desc": t.desc, "in": schema, "out": nil, "ann": nil, "run": t.out})
+		var ann any
+		if t.ann != nil {
+			ann = t.ann
+		}
+		tools = append(tools, spec{"name": t.name, "desc": t.desc, "in": schema, "out": nil, "ann": ann, "run": t.out})
 	}
 	prompts := []any{}
 	for _, p := range r.prompts {
